@@ -76,8 +76,9 @@ ALPHABETS = ["01", "abc", "abcde", "0123456789", "0123456789abcdef", H64, "".joi
 # ---------------------------------------------------------------------------------------------
 def generate(rng, prop, tier):
     api = rng.choices(["getrandbytes", "getrandstr", "salt", "totp_new", "generate_secret", "genword", "genphrase", "django_disabled",
-                       "libpass_salt", "ctx_pin_salt", "generate_password", "libpass_hasher_salt", "salt_any", "django_wrapper"],
-                      [16, 16, 16, 5, 4, 8, 6, 3, 5, 6, 2, 5, 18, 3])[0]
+                       "libpass_salt", "ctx_pin_salt", "generate_password", "libpass_hasher_salt", "salt_any", "django_wrapper",
+                       "app_handler_salt"],
+                      [16, 16, 16, 5, 4, 8, 6, 3, 5, 6, 2, 5, 18, 3, 3])[0]
     mode = rng.choices(["stream", "zeros", "ones", "counter", "single_bit"], [70, 8, 8, 8, 6])[0]
     p = {}
     if api == "getrandbytes":
@@ -95,6 +96,12 @@ def generate(rng, prop, tier):
         h = rng.choice(sorted(SALT_ANY))
         p["hasher"] = h
         p["size"] = rng.choice(SALT_ANY[h][1])
+    elif api == "app_handler_salt":
+        # an application's own handler on the library's framework: accepts a wide salt alphabet when parsing, declares a
+        # narrower one for the salts it generates (the documented use of default_salt_chars)
+        p["size"] = rng.choice([1, 4, 8, 16])
+        p["gen_alphabet"] = rng.choice(["abcdefghijklmnopqrstuvwxyz", "0123456789", "abcdef", "xy"])
+        p["via"] = rng.choice(["hash", "using", "context", "genconfig_like"])
     elif api == "django_wrapper":
         # the Django-hasher adapter passlib.ext.django hands out for a passlib scheme: salts of encode() without / with the
         # "generate one" marker, after a history that may include a call with an explicit salt
@@ -139,7 +146,7 @@ def generate(rng, prop, tier):
         p["hasher"] = rng.choice(["md5_crypt", "sha256_crypt", "pbkdf2_sha256", "bcrypt", "ldap_salted_sha1"])
     elif api == "generate_password":
         p["size"] = rng.choice([1, 4, 10, 20])
-    reps = rng.choice([50, 200, 600]) if api in ("salt", "salt_any", "django_wrapper", "totp_new", "genphrase", "django_disabled", "libpass_hasher_salt") else rng.choice([200, 1000, 3000])
+    reps = rng.choice([50, 200, 600]) if api in ("salt", "salt_any", "django_wrapper", "totp_new", "genphrase", "django_disabled", "libpass_hasher_salt", "app_handler_salt") else rng.choice([200, 1000, 3000])
     return {"cfg": {"api": api, "params": p, "mode": mode, "reps": reps, "seed": rng.getrandbits(32),
                     "exhaustive": rng.random() < (0.5 if tier == "thorough" else 0.15), "flips": rng.randint(4, 24)}, "ops": []}
 
@@ -329,6 +336,52 @@ class _Gen:
             self.alphabet = list("ABCDEFGHIJKLMNOPQRSTUVWXYZabcdefghijklmnopqrstuvwxyz0123456789")
             self.n = 40
             self.call = lambda: H.hash("x")[1:]
+        elif a == "app_handler_salt":
+            import hashlib
+
+            import passlib.utils.handlers as uh
+            from passlib.context import CryptContext
+
+            class appsalted(uh.HasSalt, uh.GenericHandler):
+                name = "appsalted"
+                setting_kwds = ("salt", "salt_size")
+                ident = "$app$"
+                checksum_chars = uh.LOWER_HEX_CHARS
+                checksum_size = 40
+                min_salt_size = 1
+                max_salt_size = 16
+                default_salt_size = 8 if p["via"] == "using" else p["size"]
+                salt_chars = uh.HASH64_CHARS
+                default_salt_chars = p["gen_alphabet"]
+
+                @classmethod
+                def from_string(cls, hash):
+                    salt, chk = uh.parse_mc2(hash, cls.ident, handler=cls)
+                    return cls(salt=salt, checksum=chk)
+
+                def to_string(self):
+                    return uh.render_mc2(self.ident, self.salt, self.checksum)
+
+                def _calc_checksum(self, secret):
+                    if isinstance(secret, str):
+                        secret = secret.encode("utf-8")
+                    return hashlib.sha1(self.salt.encode("ascii") + secret).hexdigest()
+
+            self.kind = "chars"
+            self.hname = "appsalted"
+            self.n = p["size"]
+            self.alphabet = list(p["gen_alphabet"])
+            if p["via"] == "using":
+                Hc = appsalted.using(salt_size=p["size"])
+                fn = lambda: Hc.hash("pw")
+            elif p["via"] == "context":
+                cc = CryptContext([appsalted])
+                fn = lambda: cc.hash("pw")
+            elif p["via"] == "genconfig_like":
+                fn = lambda: appsalted.using().hash("")
+            else:
+                fn = lambda: appsalted.hash("pw")
+            self.call = lambda: appsalted.from_string(fn()).salt
         elif a == "libpass_hasher_salt":
             import string
 
@@ -548,7 +601,7 @@ def _run(cfg, ctx, src, g):
     # ---- small spaces: ALL answers of the source (exhaustive enumeration of this sub-case): every declared value must be
     #      produced by the same number of answers, whether or not draw space and value space have the same size -------------
     v0, rec0 = _one(ctx, src, g, "reference for enumeration")
-    slow = api in ("salt", "salt_any", "django_wrapper", "totp_new", "genphrase", "django_disabled", "libpass_hasher_salt")
+    slow = api in ("salt", "salt_any", "django_wrapper", "totp_new", "genphrase", "django_disabled", "libpass_hasher_salt", "app_handler_salt")
     if len(rec0) == 1 and S <= 2 ** 16:
         kind, r, _ = rec0[0]
         total = (1 << r) if kind == "getrandbits" else r
